@@ -26,16 +26,21 @@ from vf.props import c12
 PROP = "C13"
 NEEDS_PARSER = True
 FLOOR = 0.4
-RULE = ("Hypothesis-generated programs: 1-2 agents running a behaviour with try-interrupt "
-        "statements nested up to depth 3 with up to 3 handlers each, inside loops and "
-        "sub-behaviours (do / do-for / do-until), handler bodies containing take, do, abort, "
-        "break, continue, return, nested statements and loops; preconditions/invariants "
-        "(also raising RejectionException) on behaviours and sub-behaviours; each program "
-        "run under every table of its 2-3 atoms over 3-5 steps when <= cap tables (quick 256, "
-        "thorough 2048), else a seeded sample of cap tables.  Non-trivial = on some table a "
-        "handler pre-empts another handler, or abort/break/continue/return is executed inside "
-        "a try-interrupt block, or a guard is violated after step 0; distinct = digest of the "
-        "program and table selection.")
+RULE = ("Hypothesis-generated programs, two families.  (a) 1-2 agents running a behaviour "
+        "with try-interrupt statements nested up to depth 3 (directly and through loops) with "
+        "up to 3 handlers each, inside loops and sub-behaviours (do / do-for / do-until), handler "
+        "bodies containing take, do, abort, break, continue, return, nested statements and "
+        "loops; preconditions/invariants (also raising RejectionException) on behaviours, "
+        "sub-behaviours and the top-level scenario.  (b) try-interrupt statements in compose "
+        "blocks (depth <= 2) whose blocks start sub-scenarios (do / do-for / do-until, also "
+        "parallel and nested); every sub-scenario carries a monitor logging each step it is "
+        "alive, so pre-emption, resumption and abandonment of sub-scenarios are observable.  "
+        "Each program is run under every table of its 2-3 atoms over 3-5 steps when <= cap "
+        "tables (quick 256, thorough 2048), else a seeded sample of cap tables; every other "
+        "table re-simulates the scene of the previous one.  Non-trivial = on some table a "
+        "handler pre-empts another handler, or abort/break/continue/return is executed inside a "
+        "try-interrupt block, or a sub-scenario is abandoned, or a guard is violated after step "
+        "0; distinct = digest of the program and table selection.")
 ASSUMPTIONS = [
     "reference interpreter vf.c12_model.Machine (explicit continuation stacks) written from "
     "docs/reference/statements.rst (try-interrupt, abort, behaviour definition) and "
@@ -46,6 +51,9 @@ ASSUMPTIONS = [
     "interpreter finds a loop that never advances time are not run (class stall)",
     "conditions are pure functions of the time step, so the order in which the implementation "
     "evaluates them is not observable and not judged",
+    "a sub-scenario whose `do` is suspended under a pre-empted block stays running (its "
+    "monitors run) but is not stepped; whether `terminate after` counts the suspended steps is "
+    "not documented: both readings are accepted",
 ]
 
 COUNTS = {}
@@ -110,6 +118,8 @@ def programs(draw):
             kinds += ["do", "do", "do_for", "do_until"]
         if ti < 3 and depth > 0:
             kinds += ["try"] * (5 if ti == 0 else 3)
+            if ti > 0:
+                kinds += ["looptry", "looptry"]
         if depth > 0:
             kinds += ["if", "for", "for", "while"]
         if ti > 0:
@@ -132,6 +142,17 @@ def programs(draw):
             if kk == "do_for":
                 return ["do_for", names, *dur()]
             return ["do_until", names, cond()]
+        if kk == "looptry":
+            # a statement nested in a block of another one *through a loop*, with a jump out
+            # of its handler
+            jump = draw(st.sampled_from(["return", "return", "break", "continue", "abort"]))
+            inner = ["try", body(owner, ti + 1, True, False, depth - 1, 2),
+                     [[cond(), [act(), [jump]]]]]
+            if draw(st.booleans()):
+                inner[2].append([cond(), handler_body(owner, ti + 1, True, depth - 1)])
+            loop_body = [inner] if draw(st.booleans()) else [act(), inner]
+            return ["for", draw(st.integers(1, 3)), loop_body] if draw(st.booleans()) else \
+                ["while", None, [act(), inner]]
         if kk == "try":
             nh = draw(st.integers(1, 3))
             tb = body(owner, ti + 1, loop, False, depth - 1)
